@@ -11,7 +11,7 @@ import os
 import subprocess
 import sys
 
-from . import boxes, framework as fw, record, tlc, optim
+from . import boxes, common, framework as fw, record, tlc, optim
 from .common import VERIF
 
 
@@ -36,14 +36,14 @@ def worker(np_, nbox):
 
     def memo(n, s):
         try:
-            m = mx.mixed_step_memoization(n, s)
+            m = common.timed('memo', lambda: mx.mixed_step_memoization(n, s), 30)
             return [int(m[0]), int(m[1]), int(m[2])], None
         except Exception as ex:
             return RAISED, f"{type(ex).__name__}: {ex}"[:120]
 
     def table(n, s):
         try:
-            return mx.mixed_steps_tabulation(n, s), None
+            return common.timed('table', lambda: mx.mixed_steps_tabulation(n, s), 300), None
         except Exception as ex:
             return None, f"{type(ex).__name__}: {ex}"[:120]
 
